@@ -2604,7 +2604,8 @@ class Tree:
         """
         Call into the fast but limited C implementation of the newick conversion.
         """
-        root_time = max(1, self.time(root))
+        # The longest possible branch below root: node times may be negative
+        root_time = max(1, self.time(root) - self.tree_sequence.nodes_time.min())
         max_label_size = math.ceil(math.log10(self.tree_sequence.num_nodes))
         single_node_size = (
             5 + max_label_size + math.ceil(math.log10(root_time)) + precision
